@@ -98,6 +98,38 @@ Theorem C10_effective_content_type : forall cl c0 c,
 Proof. intros. repeat split. Qed.
 Print Assumptions C10_effective_content_type.
 
+(* size: no hook, both sides reading the content type alike — the COMPLETE violation list (handler-made or
+   from the rules) and the COMPLETE message reach the caller, for every list and every text: no length
+   appears anywhere (the correspondence check runs 1 / 60 / 600 violations and 10 B / 5 KiB / 200 KiB texts) *)
+Theorem C10_client_go_any_size_violations : forall vs rs cl ca,
+  let ct := effective_ct cl ca in
+  client_enc ct = server_enc ct ->
+  go_call_outcome (SHandler (HValidation vs)) None cl ca = CRValidation vs /\
+  go_call_outcome (SRule rs) None cl ca = CRValidation (map (fun pv => (violation_field (fst pv), snd pv)) rs).
+Proof. intros vs rs cl ca ct E. split; [now apply call_any_size_validation|now apply call_any_size_rules]. Qed.
+Print Assumptions C10_client_go_any_size_violations.
+Theorem C10_client_go_any_size_message : forall m cl ca,
+  let ct := effective_ct cl ca in
+  client_enc ct = server_enc ct ->
+  go_call_outcome (SHandler (HPlain m)) None cl ca = CRError m /\
+  go_call_outcome (SHandler (HSebuf m)) None cl ca = CRError m.
+Proof. exact call_any_size_message. Qed.
+Print Assumptions C10_client_go_any_size_message.
+(* the generators of the size family have the advertised sizes, and the digest under which long texts and
+   long lists are compared is the identity on every document without them *)
+Theorem C10_size_family : forall n,
+  List.length (sized_text n) = 64 * n /\ List.length (gen_viols n) = n /\ List.length (gen_rules n) = n.
+Proof. intros n. split; [apply sized_text_length|]. split; [apply gen_viols_length|apply gen_rules_length]. Qed.
+Print Assumptions C10_size_family.
+Theorem C10_digest_short : forall j, short_json j = true -> digest_json j = j.
+Proof. exact digest_json_short. Qed.
+Print Assumptions C10_digest_short.
+Example C10_any_size_nonvacuous :
+  go_call_outcome (SHandler (HValidation (gen_viols 60))) None None None = CRValidation (gen_viols 60) /\
+  go_call_outcome (SHandler (HPlain (sized_text 8))) None (Some (s "application/x-protobuf")) None = CRError (sized_text 8) /\
+  digest_json (JStr (sized_text 8)) <> JStr (sized_text 8).
+Proof. split; [vm_compute; reflexivity|]. split; [vm_compute; reflexivity|]. vm_compute. discriminate. Qed.
+
 (* TS server catch block and TS client handleError *)
 Theorem C10_server_ts : forall e,
   ts_status (ts_server_error e None) = match e with TValidation _ => 400%Z | _ => 500%Z end.
